@@ -1,11 +1,13 @@
 (** C01 - Formula-based samplers return only valid trial sequences.
 
     [C01_sound]: for every flat record in the fragment F1 (CodeSem.in_f1:
-    simple and WithinTrial factors in any design order; act_design any subset
-    of the design, listed in design order, every factor outside it (an implied
-    derived factor: it has no variables and no Derivation constraints) a
-    WithinTrial factor of act_design factors whose table accepts every
-    argument tuple; sustain 1, any number of crossings and chunks (partial
+    act_design any subset of the design, listed in design order; its factors
+    simple or WithinTrial, in any design order; every factor outside it (an
+    implied derived factor: it has no variables and no Derivation constraints)
+    a derived factor of act_design factors with any window - WithinTrial,
+    Transition, Window(width, stride, start) with start >= width - 1 so that it
+    never reads before the first trial - exactly one of whose levels accepts
+    every argument tuple; sustain 1, any number of crossings and chunks (partial
     last chunk, crossing weights, weighted levels), kinds Consistency / Cross /
     Derivation / AtMostKInARow / AtLeastKInARow / ExactlyKInARow / ExactlyK /
     Exclude / Pin / Sequential, combinations left out of a crossing by Exclude
@@ -17,7 +19,8 @@
     q is complete, that the rows of the act_design factors are read off the
     trial variables of t and that the rows of the implied factors are the ones
     [SampleGen.decode] adds ([add_implied_levels]: the level whose table
-    accepts the decoded levels of the factors it reads).
+    accepts the decoded levels in its window, nothing in the trials where the
+    factor does not apply).
     [C01_request_exact]: for EVERY backend request (no fragment), the final
     formula has a model extending an assignment of the variables below [b_fresh]
     iff that assignment satisfies the clauses and every cardinality request.
@@ -112,3 +115,13 @@ Example C01_example_implied :
     ((Some 1 :: Some 1 :: Some 0 :: Some 0 :: nil) :: (Some 1 :: Some 0 :: Some 1 :: Some 0 :: nil) ::
      (Some 0 :: Some 1 :: Some 1 :: Some 0 :: nil) :: nil)%nat.
 Proof. exact ex_implied_facts. Qed.
+
+(** ... and by a design with an implied Transition factor (no level in the first trial) *)
+Example C01_example_implied_transition :
+  in_f1 ex_implied_transition = true /\ (0 < T ex_implied_transition)%nat /\ isact ex_implied_transition 2 = false /\
+  (exists b, compile ex_implied_transition = COk b /\ b_fresh b = 66%Z) /\
+  length (all_valid (code_sem ex_implied_transition)) = 12%nat /\
+  hd nil (all_valid (code_sem ex_implied_transition)) =
+    ((Some 1 :: Some 1 :: Some 0 :: Some 0 :: nil) :: (Some 1 :: Some 0 :: Some 1 :: Some 0 :: nil) ::
+     (None :: Some 1 :: Some 1 :: Some 1 :: nil) :: nil)%nat.
+Proof. exact ex_implied_transition_facts. Qed.
